@@ -14,12 +14,14 @@ def monitor(op, out):
         if out == "err" and paid >= need:
             return "group rejected although fees %d cover the requirement %d" % (paid, need)
     elif f[0] == "payout" and out not in ("err", "PANIC"):
-        pct, fees, bonus, sink, mb = [int(x) for x in f[1:]]
+        pct, fees, bonus, sink, mb = [int(x) for x in f[1:6]]
+        mb = min(mb * (1 + (int(f[6]) if len(f) > 6 else 0)), (1 << 64) - 1)   # the sink's OWN minimum balance
         p = int(out)
         if p > fees * pct // 100 + bonus or p > max(sink - mb, 0):
             return "payout %d exceeds its bound" % p
     elif f[0] == "vpay" and out == "ok":
-        claimed, pct, fees, bonus, sink, mb = [int(x) for x in f[1:]]
+        claimed, pct, fees, bonus, sink, mb = [int(x) for x in f[1:7]]
+        mb = min(mb * (1 + (int(f[7]) if len(f) > 7 else 0)), (1 << 64) - 1)
         if claimed > min(fees * pct // 100 + bonus, max(sink - mb, 0)):
             return "header payout %d above the allowed maximum was accepted" % claimed
     elif f[0] == "load" and out.isdigit() and int(out) > 1000000:
@@ -29,7 +31,7 @@ def monitor(op, out):
 def run(ctx, replay_ops=None):
     ctx.overlay()
     ctx.assumptions += ["operands < 2^64; Payouts.Percent ≤ 100 (NewPercent panics otherwise; true of every consensus version)",
-                        "proposerPayout/validateForPayouts are modelled by hand as a composition of regenerated helpers (Props/C24Model.lean) and tied by running the real methods on a mock ledger; the sink account has no assets/apps in the harness (its minimum balance is proto.MinBalance)"]
+                        "proposerPayout/validateForPayouts are modelled by hand as a composition of regenerated helpers (Props/C24Model.lean) and tied by running the real methods on a mock ledger; the sink account holds 0–4 assets in the harness (its minimum balance is proto.MinBalance·(1+assets)); apps/boxes on the sink are not exercised"]
     ok_gen, _ = ctx.go2lean(["Fees"])
     proved = ok_gen and ctx.prove(["AlgoVerif.Props.C24"])
     okb, out = ctx.lean_build(["fees"])
